@@ -75,7 +75,7 @@ CLASSES = {
             "_strict_types": BOOL,
             "_explicit_edges": ANY,
         },
-        "methods": {},
+        "methods": {"iter_nodes": {"custom": lambda ex, recv, args, kwargs, s: _graph_iter_nodes(ex, recv, s)}},
     },
     "InputSpec": {
         "module": "hypergraph.graph.input_spec", "file": "graph/input_spec.py",
@@ -212,6 +212,13 @@ OPAQUE = {
     # function of (history list, kind); the history list of a published node is never mutated
     "build_reverse_rename_map": {"raises": [], "returns": DICT(STR, STR), "pure_content": "dict"},
 }
+
+
+def _graph_iter_nodes(ex, recv, s):
+    """Graph.iter_nodes() (graph/core.py: `return self._nodes.values()`, one line, inlined): the values view of _nodes."""
+    from pyvc.calls import call_method_val
+    nodes = ex.read_attr(recv, "_nodes", DICT(STR, OBJ("HyperNode")), s)
+    yield from call_method_val(ex, nodes, "values", [], {}, s)
 
 
 def _lib_deepcopy(ex, args, kwargs, s):
